@@ -4,6 +4,9 @@ From Coq Require Import Lia ZifyBool ZifyN.
 Local Open Scope N_scope.
 
 Definition nz (t : list (N * N)) : Prop := forall k v, find t k = Some v -> v <> 0.
+(* a validator trie as IntermediateRoot leaves it: sorted, stored records not flagged deleted *)
+Definition vnorm (t : vtrie) : Prop :=
+  sorted (vt_info t) /\ forall a v, In (a, v) (vt_info t) -> v_deleted v = false.
 
 (* what the theorems assume about hashes and codecs: the codecs round-trip
    (C14), hashing is collision free.  The trie roots are only required to be
@@ -25,7 +28,11 @@ Class WorldOk (W : World) : Prop := {
   root_stor_inj : forall a b, sorted a -> nz a -> sorted b -> nz b -> root_stor a = root_stor b -> a = b;
   root_acct_nil : forall t : list (N * account hash), sorted t -> aroot t = aroot [] -> t = [];
   root_val_nil : forall t : vtrie, sorted (vt_info t) -> vroot t = vroot vt_empty -> vt_index t = None;
-  root_stk_nil : forall t : strie, sorted (st_recs t) -> sroot t = sroot st_empty -> t = st_empty
+  root_stk_nil : forall t : strie, sorted (st_recs t) -> sroot t = sroot st_empty -> t = st_empty;
+  (* equal top-level roots, equal tries (sorted; stored validators carry no deleted flag) *)
+  root_acct_inj : forall t1 t2 : list (N * account hash), sorted t1 -> sorted t2 -> aroot t1 = aroot t2 -> t1 = t2;
+  root_val_inj : forall t1 t2 : vtrie, vnorm t1 -> vnorm t2 -> vroot t1 = vroot t2 -> t1 = t2;
+  root_stk_inj : forall t1 t2 : strie, sorted (st_recs t1) -> sorted (st_recs t2) -> sroot t1 = sroot t2 -> t1 = t2
 }.
 
 Section Stk.
@@ -43,6 +50,14 @@ Lemma menc_inj {A} (e : A -> blob) (Hinj : forall x y, e x = e y -> x = y) (m1 m
 Proof.
   revert m2. induction m1 as [|[k v] r IH]; intros [|[k' v'] r']; cbn; try discriminate; [reflexivity|].
   intros H. injection H as Hk Hv Hr. apply Hinj in Hv. subst. f_equal. apply IH; exact Hr.
+Qed.
+Lemma menc_inj_in {A} (e : A -> blob) (m1 m2 : list (N * A)) :
+  (forall k x y, In (k, x) m1 -> In (k, y) m2 -> e x = e y -> x = y) -> menc e m1 = menc e m2 -> m1 = m2.
+Proof.
+  revert m2. induction m1 as [|[k v] r IH]; intros [|[k' v'] r'] Hinj; cbn; try discriminate; [reflexivity|].
+  intros H. injection H as Hk Hv Hr. subst k'.
+  apply (Hinj k v v' (or_introl eq_refl) (or_introl eq_refl)) in Hv. subst. f_equal.
+  apply IH; [|exact Hr]. intros k0 x y Hx Hy. apply (Hinj k0 x y); right; assumption.
 Qed.
 Lemma enc_rec_inj x y : enc_rec x = enc_rec y -> x = y.
 Proof. intros H. pose proof (rec_rt x) as A. rewrite H, rec_rt in A. injection A as ->. reflexivity. Qed.
